@@ -9,6 +9,7 @@ pip install swcgeom[all]
 ```
 """
 
+import itertools
 import os
 import re
 import time
@@ -197,8 +198,15 @@ class ToImageStack(Transform[Tree, npt.NDArray[np.uint8]]):
         frames: Iterable[npt.NDArray[np.uint8]],
         resolution: tuple[float, float] = (1, 1),
     ) -> None:
+        # a single frame is written as a (1, X, Y) block: a bare (X, Y) page is a
+        # 2-D image for tifffile (axes `YX`) and could not be read back as a stack
+        frames = iter(frames)
+        head = list(itertools.islice(frames, 2))
+        if len(head) == 1:
+            head = [head[0][np.newaxis]]
+
         with tifffile.TiffWriter(fname) as tif:
-            for frame in frames:
+            for frame in itertools.chain(head, frames):
                 tif.write(
                     frame,
                     contiguous=True,
